@@ -157,7 +157,8 @@ pub fn run_sim(c: &SimCfg, progress: bool) -> (u64, u64, u64, u64) {
 pub fn random_cfg(rng: &mut Sm, i: usize) -> SimCfg {
     SimCfg {
         composition: (i % 8) as u8,
-        seed: rng.next(),
+        // most seeds are random 64-bit values; every tenth configuration uses a very small seed (0, 1, 2, ...)
+        seed: if i % 10 == 9 { rng.below(4) } else { rng.next() },
         n_steps: if i % 5 == 4 { rng.range(200, 420) } else { rng.range(1, 120) },
         step_size: *rng.pick(&[50u64, 1000, 100_000]),
         ticks: vec![rng.range(1, 10) as u32, rng.range(1, 10) as u32, rng.range(1, 10) as u32],
